@@ -17,6 +17,12 @@ func replayMore(rp *ev.Replay) *ev.Failure {
 		}
 		f, _ := oracleC12(&c)
 		return f
+	case "C12/firstuse":
+		var c struct{ K int }
+		if err := json.Unmarshal(rp.Case, &c); err != nil {
+			return ev.Failf("C12/replay", "bad case: %v", err)
+		}
+		return c12FirstUseRoundOnce(c.K)
 	case "C18/wktjson":
 		var c wktJSONCase
 		if err := json.Unmarshal(rp.Case, &c); err != nil {
